@@ -1914,6 +1914,7 @@ func (db *DatabaseCollectionWithUser) getResyncedDocument(ctx context.Context, d
 
 	// Run the sync fn over each current/leaf revision, in case there are conflicts:
 	changed := 0
+	changedLeafChannels := 0 // number of non-winning leaf revisions whose channels were changed by the sync function
 	doc.History.forEachLeaf(func(rev *RevInfo) {
 		bodyBytes, _, err := db.get1xRevFromDoc(ctx, doc, rev.ID, false)
 		if err != nil {
@@ -1935,6 +1936,11 @@ func (db *DatabaseCollectionWithUser) getResyncedDocument(ctx context.Context, d
 			access = nil
 			roles = nil
 			channels = nil
+		}
+		// The channels of a non-winning leaf are only stored in the revision tree, and they decide access to that
+		// revision. A change there requires the document to be rewritten, even if the winning revision is unchanged.
+		if rev.ID != doc.GetRevTreeID() && !rev.Channels.Equals(channels) {
+			changedLeafChannels++
 		}
 		rev.Channels = channels
 
@@ -1961,7 +1967,7 @@ func (db *DatabaseCollectionWithUser) getResyncedDocument(ctx context.Context, d
 			}
 		}
 	})
-	if changed == 0 && !forceUpdate {
+	if changed == 0 && changedLeafChannels == 0 && !forceUpdate {
 		return nil, nil, base.ErrUpdateCancel
 	}
 	doc.SetCrc32cUserXattrHash()
